@@ -143,6 +143,11 @@ class CustomDecisionPoint(DecisionPoint):
             and self.location == other.location
             and self.hints == other.hints)
 
+  def sym_hash(self) -> int:
+    """Overrides sym_hash to be consistent with sym_eq."""
+    return hash((self.__class__, self.hyper_type, self.name,
+                 self.location, symbolic.hash(self.hints)))
+
   def format(self,
              compact: bool = True,
              verbose: bool = True,
